@@ -11,7 +11,10 @@ from vmc.engine import guarded
 ID = 'C03'
 
 UNARY_FAMILY = space.alphabet('NOT', 'IFF', 'LNOT', 'RNOT', 'LIFF', 'RIFF', 'AND', 'GT')
-ALPHAS = {'FULL': space.FULL, 'FULL_NO3': space.FULL_NO3, 'UNARY': UNARY_FAMILY}
+UNARY4 = space.alphabet('NOT', 'IFF', 'LNOT', 'RIFF', 'AND')
+CHAIN = space.alphabet('NOT', 'LNOT', 'IFF')
+CHAIN1 = space.alphabet('NOT', 'IFF')
+ALPHAS = {'CHAIN1': CHAIN1, 'CHAIN': CHAIN, 'FULL': space.FULL, 'FULL_NO3': space.FULL_NO3, 'UNARY': UNARY_FAMILY, 'UNARY4': UNARY4}
 
 
 def singles():
@@ -83,12 +86,15 @@ def plan(tier):
     fam(2, 1, 'FULL', 1, 'all', 'all')
     fam(2, 2, 'FULL', 1, 'single', 'core' if tier == 'quick' else 'all')
     fam(3, 1, 'FULL', 1, 'single', 'all')
+    fam(1, 4, 'CHAIN', 2, 'unary', 'last')
+    for k in (5, 6):
+        fam(1, k, 'CHAIN1', 2, 'unary', 'last')
     fam(2, 3, 'UNARY', 2, 'unary', 'last' if tier == 'quick' else 'core')
     if tier == 'thorough':
         fam(2, 2, 'FULL', 1, 'pairs', 'core')
         fam(3, 2, 'FULL', 1, 'single', 'core')
-        fam(2, 3, 'FULL_NO3', 2, 'single', 'core')
-        fam(2, 4, 'UNARY', 2, 'unary', 'last')
+        fam(2, 3, 'FULL_NO3', 2, 'single', 'last')
+        fam(2, 4, 'UNARY4', 2, 'unary', 'last')
     return t
 
 
@@ -101,9 +107,9 @@ def describe(tier):
         'distinct = distinct (transformer, result shape) outcomes.',
         'bounds': {
             'quick': 'singles+cleanup: F(0..2,<=2,FULL) (F(2,2): core policies), F(3,1,FULL) all policies; pairs: F(n,k,FULL) with n+k<=3; '
-            'unary family F(2,3,{NOT,IFF,LNOT,RNOT,LIFF,RIFF,AND,GT}) with MUO/cleanup pipes, last-gate output',
-            'thorough': '+ F(2,2,FULL) all policies, unary family k=3 core policies; pairs on F(2,2,FULL) core policies; singles on F(3,2,FULL), F(2,3,FULL\\S3) core '
-            'policies; unary family k=4 (last-gate output)',
+            'unary family F(2,3,{NOT,IFF,LNOT,RNOT,LIFF,RIFF,AND,GT}) and chains F(1,4,{NOT,LNOT,IFF}), F(1,5..6,{NOT,IFF}) with MUO/cleanup pipes, last-gate output',
+            'thorough': '+ F(2,2,FULL) all policies, unary family k=3 core policies; pairs on F(2,2,FULL) core policies; singles on F(3,2,FULL) core policies, F(2,3,FULL\\S3) last-gate output; '
+            'unary family k=4 over {NOT,IFF,LNOT,RIFF,AND} (last-gate output)',
         }[tier],
         'exhaustive': True,
         'assumptions': ['vmc.refmodel evaluator; Circuit accessors used by abstract() are faithful (tied by C01/C02)'],
